@@ -19,5 +19,5 @@ for i in range(1, 21):
         if "sets" in a:
             extra.append("%d parameter sets" % len(str(a["sets"]).split(",")))
         jobs.append("%s: %s [%s]%s x%d" % (j["flavour"], j["suite"], a.get("mon", "fixed"), (" " + " ".join(extra)) if extra else "", j.get("shards", 1)))
-    req = ", ".join("%s>=%s" % (k, v) for k, v in p.get("require", {}).items())
+    req = ", ".join("%s%s>=%s" % (k, "(soft)" if plans.is_soft(k) else "", v) for k, v in p.get("require", {}).items())
     print("| %s | %s | %s | %s |" % (pid, p["level"], "<br>".join(jobs), req))
